@@ -84,6 +84,8 @@ pub struct DStep {
     /// positions in the id-sorted list of the previous variant
     pub remove: Vec<usize>,
     pub ghost: bool,
+    /// the ghost is removed after the first addition of the step instead of at once
+    pub ghost_late: bool,
     /// (type index, may-be-uninit)
     pub add: Vec<(usize, bool)>,
     pub strat: u8,
@@ -112,7 +114,7 @@ impl DefSpec {
                 write!(s, "-@{} ", r).unwrap();
             }
             if st.ghost {
-                s.push_str("ghost ");
+                s.push_str(if st.ghost_late { "ghost-late " } else { "ghost " });
             }
             for (t, u) in &st.add {
                 write!(s, "+{}{} ", ts[*t].short, if *u { "?" } else { "" }).unwrap();
@@ -130,6 +132,8 @@ pub struct Built {
     pub def: Def,
     /// type index of every datum id (None for ghosts)
     pub type_of: Vec<Option<usize>>,
+    /// ids of the regular data in the order they were declared (added); not derived from the ids
+    pub declared: Vec<DatumId>,
 }
 
 fn close(b: &mut Builder, strat: u8) {
@@ -145,7 +149,8 @@ pub fn build(spec: &DefSpec) -> Built {
     let ts = types();
     let mut b: Builder = NativeRecordDefinitionBuilder::new(HostTypeResolver);
     let mut live: Vec<(DatumId, String)> = vec![];
-    let mut type_of: Vec<Option<usize>> = vec![];
+    let mut types_by_id: std::collections::BTreeMap<DatumId, Option<usize>> = Default::default();
+    let mut declared: Vec<DatumId> = vec![];
     let mut counter = 0usize;
     for st in &spec.steps {
         let mut freed: Vec<String> = vec![];
@@ -157,11 +162,16 @@ pub fn build(spec: &DefSpec) -> Built {
             live.retain(|(i, _)| *i != id);
             freed.push(name);
         }
+        let mut pending_ghost = None;
         if st.ghost {
             let id = b.add_datum::<vtypes::Own12, _>(format!("ghost{}", counter)).expect("ghost");
-            b.remove_datum(id).expect("remove ghost");
-            type_of.push(None);
+            types_by_id.insert(id, None);
             counter += 1;
+            if st.ghost_late && !st.add.is_empty() {
+                pending_ghost = Some(id);
+            } else {
+                b.remove_datum(id).expect("remove ghost");
+            }
         }
         for &(t, uninit) in &st.add {
             let name = if spec.reuse_names && !freed.is_empty() {
@@ -175,13 +185,21 @@ pub fn build(spec: &DefSpec) -> Built {
                 (ts[t].add)(&mut b, &name)
             }
             .expect("add");
-            type_of.push(Some(t));
+            types_by_id.insert(id, Some(t));
+            declared.retain(|d| *d != id);
+            declared.push(id);
             counter += 1;
             live.push((id, name));
+            if let Some(g) = pending_ghost.take() {
+                b.remove_datum(g).expect("remove ghost");
+            }
         }
         close(&mut b, st.strat);
     }
-    Built { def: b.build(), type_of }
+    let def = b.build();
+    let n = def.datum_definitions().count();
+    let type_of = (0..n).map(|i| types_by_id.get(&DatumId::from(i)).copied().flatten()).collect();
+    Built { def, type_of, declared }
 }
 
 pub fn config(clone: bool, serde: bool) -> GeneratorConfig {
@@ -206,6 +224,8 @@ pub fn generate_module(def: &Def, clone: bool, serde: bool) -> String {
 struct V {
     /// datum ids in id order
     data: Vec<usize>,
+    /// datum ids in declaration order (what the serialised form must follow)
+    declared: Vec<usize>,
     minus: Vec<usize>,
     plus: Vec<usize>,
 }
@@ -227,7 +247,8 @@ pub fn emit_glue(spec: &DefSpec, built: &Built, module: &str, gen_file: &str) ->
             let prev: Vec<usize> = out.last().map(|p| p.data.clone()).unwrap_or_default();
             let minus = prev.iter().copied().filter(|d| !data.contains(d)).collect();
             let plus = data.iter().copied().filter(|d| !prev.contains(d)).collect();
-            out.push(V { data, minus, plus });
+            let declared: Vec<usize> = built.declared.iter().map(|d| id_num(*d)).filter(|d| data.contains(d)).collect();
+            out.push(V { data, declared, minus, plus });
         }
         out
     };
@@ -282,7 +303,7 @@ pub fn emit_glue(spec: &DefSpec, built: &Built, module: &str, gen_file: &str) ->
     }
     writeln!(w, "            ],\n            variants: vec![").unwrap();
     for v in &variants {
-        writeln!(w, "                VariantMeta {{ fields: vec!{:?}, minus: vec!{:?}, plus: vec!{:?} }},", v.data, v.minus, v.plus).unwrap();
+        writeln!(w, "                VariantMeta {{ fields: vec!{:?}, declared: vec!{:?}, minus: vec!{:?}, plus: vec!{:?} }},", v.data, v.declared, v.minus, v.plus).unwrap();
     }
     writeln!(w, "            ],\n        }}\n    }}").unwrap();
     writeln!(w, "    pub fn instantiate<const CAP: usize>() -> Box<dyn Glue> {{ Box::new(G::<CAP> {{ meta: meta(), slots: vec![None, None] }}) }}").unwrap();
@@ -471,7 +492,7 @@ pub fn histories(alphabet: &[(usize, bool)], adds: &[usize], strategies: &[u8], 
                     }
                     for &strat in strategies {
                         let mut h = hist.clone();
-                        h.push(DStep { remove: rem.clone(), ghost: false, add: add.clone(), strat });
+                        h.push(DStep { remove: rem.clone(), ghost: false, ghost_late: false, add: add.clone(), strat });
                         next.push((h, live - rem.len() + add.len()));
                     }
                 }
@@ -489,7 +510,7 @@ pub fn histories(alphabet: &[(usize, bool)], adds: &[usize], strategies: &[u8], 
 }
 
 fn step(remove: &[usize], add: &[(&str, bool)], strat: u8) -> DStep {
-    DStep { remove: remove.to_vec(), ghost: false, add: add.iter().map(|(t, u)| (type_index(t), *u)).collect(), strat }
+    DStep { remove: remove.to_vec(), ghost: false, ghost_late: false, add: add.iter().map(|(t, u)| (type_index(t), *u)).collect(), strat }
 }
 
 /// Hand-picked shapes covering every instrumented type, three variants, empty / only-removal /
@@ -556,6 +577,17 @@ pub fn zoo() -> Vec<DefSpec> {
     let mut g2 = vec![step(&[], &[("Pod4", t)], 0), step(&[0], &[("Own3", f)], 0)];
     g2[1].ghost = true;
     z.push((g2, f));
+    // a ghost that goes away after the next addition (a higher id is pending at that moment)
+    let mut g3 = vec![step(&[], &[("Own8", f), ("Pod4", t), ("OwnBox", f)], 0), step(&[1], &[("Pod8", t), ("Own3", f)], 0)];
+    g3[0].ghost = true;
+    g3[0].ghost_late = true;
+    g3[1].ghost = true;
+    g3[1].ghost_late = true;
+    z.push((g3, f));
+    let mut g4 = vec![step(&[], &[("Pod1", t)], 0), step(&[], &[("OwnZ", f), ("Own12", f)], 1), step(&[0], &[("Pod2", f)], 0)];
+    g4[1].ghost = true;
+    g4[1].ghost_late = true;
+    z.push((g4, f));
     z.into_iter()
         .enumerate()
         .map(|(i, (steps, reuse))| DefSpec { name: format!("zoo{}", i), steps, reuse_names: reuse })
@@ -568,7 +600,8 @@ pub fn miri_family() -> Vec<DefSpec> {
     let keep = [1usize, 2, 3, 8, 13, 14, 16, 18, 20, 22, 26, 27, 28, 32];
     let z = zoo();
     let mut v: Vec<DefSpec> = keep.iter().filter_map(|i| z.get(*i).cloned()).collect();
-    v.push(z[z.len() - 2].clone()); // first ghost definition
+    v.push(z[z.len() - 4].clone()); // first ghost definition
+    v.push(z[z.len() - 2].clone()); // ghost removed late
     v
 }
 
